@@ -58,7 +58,9 @@ const (
 // CurrentVersion is the audit log entry format version.
 //   - v2 added actor/request/outcome detail fields.
 //   - v3 added ResourceDetails.SourceBucket/SourceKey for server-side copy operations.
-const CurrentVersion uint16 = 3
+//   - v4 includes SourceBucket/SourceKey in the entry hash (v3 serialized them but
+//     left them out of the hash, so they could be altered undetected).
+const CurrentVersion uint16 = 4
 
 type EntryType string
 
@@ -165,6 +167,10 @@ func (e *Entry) CalculateHash() []byte {
 		writeString(buf, d.Resource.Key)
 		writeString(buf, d.Resource.UploadID)
 		binary.Write(buf, binary.BigEndian, d.Resource.PartNumber)
+		if e.Version >= 4 {
+			writeString(buf, d.Resource.SourceBucket)
+			writeString(buf, d.Resource.SourceKey)
+		}
 
 		if e.Version <= 1 {
 			writeString(buf, d.Actor.CredentialID)
